@@ -376,3 +376,26 @@ func (sl *vSimLeader) wakeFollower() {
 	sl.v.nc.Publish(sl.v.srv.s.getPartitionNotificationInbox(me), data)
 	sl.v.nc.Flush()
 }
+
+// vLogDump reads a partition's log: offset, leader epoch and value of every message.
+func vLogDump(p *partition) []vM {
+	out := []vM{}
+	first := p.log.OldestOffset()
+	if first < 0 {
+		return out
+	}
+	rd, err := p.log.NewReader(first, true)
+	if err != nil {
+		return out
+	}
+	hb := make([]byte, 28)
+	for {
+		ctx, cancel := context.WithCancel(context.Background())
+		cancel()
+		m, off, _, ep, err := rd.ReadMessage(ctx, hb)
+		if err != nil {
+			return out
+		}
+		out = append(out, vM{"off": off, "ep": ep, "v": string(m.Value())})
+	}
+}
